@@ -58,4 +58,30 @@ CLAIMED["C04"] = {
     "technique": "Lean 4 theorems over a hand-written model + differential correspondence check",
 }
 
+CLAIMED["C06"] = {
+    "text": "Theorems for all well-formed transactions (256-bit numbers, 20-byte addresses, 32-byte keys, calldata < 2^32 bytes) and all signatures: the emitted bytes are exactly [type byte ||] rlp([fields..., v|yParity, r, s]) per EIP-155/2930/1559 (encode_spec), the signed digest is Keccak-256 of the same payload without signature, with (chainId,0,0) for legacy with chain id (signing_spec), an independent strict decoder recovers every field and the signature triple unchanged from both payloads (decode_signed, decode_signing), distinct transactions never share a signing payload (signing_payload_injective), the kind is chosen by the three-way key rule (kind_dispatch), absent/null recipient is the empty string (recipient_absent), and every accepted document yields in-range fields (ofJson_ranges). Recovery of the signer from the decoded signature is C05. Tied to src/transaction*.rs by signing random and boundary documents (calldata 0..120 exhaustively, access-list shapes across 55/56 and 255/256, all kinds, both parities) and judging the real output with the independent decoder + ECDSA verify/recover.",
+    "note": COMMON_NOTE + " calldata / access-list size bounds (< 2^32 bytes) are hypotheses of encode_spec.",
+    "technique": "Lean 4 theorems over a hand-written model + differential correspondence check",
+}
+CLAIMED["C08"] = {
+    "text": "Theorems for all type graphs (any number of types, member order, shared/repeated/recursive references): the code's work-list type string is exactly EIP-712 encodeType — primary definition, then every transitively referenced struct type except the primary, once each, in name order (encodeType_spec, isEncodeType_unique, strLt_strict_total), it never runs out of fuel and fails exactly when a needed type is undefined (encodeType_total), and equals the executable closure-based spec (spec_encodeType_eq); the member type grammar prints and re-parses every well-formed kind and recognises all 100 atomic names (kind_print_parse, atoms_parse); accepted values are encoded exactly as EIP-712 encodeData/hashStruct and the three digests are the EIP's (C09.encode_sound, structHash_sound, compute_sound; PARTIAL: number literals restricted to exact integer literals, see C09). Tied to src/typeddata.rs by random type graphs with type-directed values, every member-order permutation of dependency-bearing structs, recursive and deeply nested documents, all atomic type strings (hooks td.encode_type / td.kind), judged by the executable EIP-712 spec.",
+    "note": COMMON_NOTE + " serde derive / HashMap semantics at contract level.",
+    "technique": "Lean 4 theorems over a hand-written model + differential correspondence check",
+}
+CLAIMED["C09"] = {
+    "text": "Theorems: whatever the code accepts for a member is a value of the declared type in the statement's sense (exact mathematical value of the spelling) and is encoded per EIP-712 (encode_sound, structHash_sound, compute_sound), with the individual refusals as corollaries: uintN in [0,2^N) (uint_range), intN in [-2^(N-1),2^(N-1)) sign-extended (int_range), bytesN exactly N bytes left-aligned (bytesN_exact), fixed arrays exactly that many elements (fixed_array_size), objects with exactly the declared members (struct_members_exact), undefined types refused (undefined_type_refused), never a panic for strings below 2^33 chars (compute_no_panic_partial; bytesN_truncation_panics shows the excluded 4 GiB case is real). PARTIAL: number literals must be integer-syntax within i64/u64 — float-syntax literals are rounded by serde_json first (known finding float-literal-rounding, kernel-checked witnesses in C13). Tied to src/typeddata.rs by injecting one violation into accepted documents: every width x six range boundaries x every spelling, bytesN lengths N+-1, array sizes +-1, missing/extra members, undefined types, wrong JSON kinds.",
+    "note": COMMON_NOTE + " Known finding float-literal-rounding is reported as KNOWN-FINDING, not as a violation.",
+    "technique": "Lean 4 theorems over a hand-written model + differential correspondence check",
+}
+CLAIMED["C11"] = {
+    "text": "Theorems: v = 35+2c+yParity exactly as an integer whenever it fits 256 bits, 27/28 without chain id, and a (checked-build) panic exactly otherwise — never a wrap (v_exact, flag_v); every chain id that deserialisation accepts fits for both parities and the bound is tight (accepted_chain_fits, bound_tight; with C06.ofJson_ranges: no accepted transaction can overflow v); the sign command refuses a legacy transaction without chain id unless the flag is given, for every key/output mode (guard); the chain id is bound into the signing payload (chain_in_preimage), changing only the chain id changes the payload (preimage_injective_in_chain) and v determines the chain id (v_determines_chain). Tied to src/cmd/sign.rs + signature.rs + legacy.rs by running the real binary over kinds x chain-id classes (absent, null, 0, 1, 2^64-1, 2^255-20..2^255-18, 2^255, 2^256-1) x flag x output mode, judged by strict decoding, integer v, and verify/recover over the EIP-155/2718 payload.",
+    "note": COMMON_NOTE + " 'never validates under another chain' beyond payload injectivity rests on Keccak collision resistance (outside any theorem).",
+    "technique": "Lean 4 theorems over a hand-written model + differential correspondence check against the real binary",
+}
+CLAIMED["C20"] = {
+    "text": "Theorems for arbitrary member lists (also foreign names and kinds): the ordered scan accepts exactly the sub-sequences of an allowed list with distinct names (scan_iff, scan_sound; scan_iff_counterexample shows distinctness is needed), hence the domain type is accepted iff it is declared and is a non-empty selection of the five standard fields in order with exactly the standard types (domain_accept_iff), everything else is an error (domain_refused, missing_domain_refused), exactly 31 domain types are accepted (domain_count), and refusal happens before anything is hashed (refused_before_hash). Tied to src/typeddata.rs by all 326 duplicate-free orderings of subsets, repeated fields, foreign names at every position, every field x wrong types, missing domain type; accepted ones are hashed and judged by the EIP-712 spec.",
+    "note": COMMON_NOTE,
+    "technique": "Lean 4 theorems over a hand-written model + differential correspondence check",
+}
+
 NOT_YET = {}
